@@ -23,6 +23,7 @@ from src.core.base import BaseLintContext, BaseLintRule
 from src.core.linter_utils import (
     has_file_content,
     is_ignored_path,
+    path_in_project,
     load_linter_config,
     resolve_file_path,
 )
@@ -113,7 +114,7 @@ class CloneAbuseRule(BaseLintRule):
             return False
         if not config.enabled:
             return False
-        return not is_ignored_path(resolve_file_path(context), config.ignore)
+        return not is_ignored_path(path_in_project(context), config.ignore)
 
     def _get_config(self, context: BaseLintContext) -> CloneAbuseConfig:
         """Load configuration from override or context metadata.
